@@ -28,6 +28,8 @@ fn ff(c: &Case) -> String {
         "F9" if f.starts_with("at-binding:") => {
             format!("F9:{}", f.rsplitn(2, ':').nth(1).unwrap_or(f))
         }
+        // r := r OP <untyped real literal>: operator and operand order do not matter
+        "F3r" => "F3r:real-arith-untyped-literal".to_string(),
         fam => format!("{fam}:{f}"),
     }
 }
